@@ -172,11 +172,16 @@ def load_known_findings(prop):
 _WORKER_CHECK = None
 
 
+_OPEN_SIGS = set()  # signatures of recorded (open) findings of this property
+
+
 def _worker_init(check_factory_name):
     global _WORKER_CHECK
     import faulthandler
     faulthandler.enable()
     _WORKER_CHECK = load_check(check_factory_name)
+    _OPEN_SIGS.update(s for s, _ in load_known_findings(
+        _WORKER_CHECK.prop)[0] if s)
     _WORKER_CHECK.setup_worker()
 
 
@@ -259,6 +264,7 @@ class Aggregate:
         self.steps = 0
         self.sim_time = 0.0
         self.violations = []  # (index, case, violation)
+        self.known = []  # the same for recorded findings, one per signature
         self.samples = []
         self.harness_errors = []
         self.first_seed = None
@@ -277,8 +283,16 @@ class Aggregate:
                 self.aux_sets[k].add(v)
         self.steps += res.steps
         self.sim_time += res.sim_time
-        if res.violation is not None and len(self.violations) < 20:
-            self.violations.append((res.index, case, res.violation))
+        if res.violation is not None:
+            if res.violation.get("sig") in _OPEN_SIGS:
+                # a recorded finding: counted, one instance kept, and it never
+                # takes the place of (or stops the search for) a new one
+                self.stats["known_finding_runs"] += 1
+                if not any(v["sig"] == res.violation["sig"]
+                           for _, _, v in self.known):
+                    self.known.append((res.index, case, res.violation))
+            elif len(self.violations) < 20:
+                self.violations.append((res.index, case, res.violation))
         if keep_samples and len(self.samples) < keep_samples:
             self.samples.append((res.index, case, res.nontrivial_key
                                  is not None))
@@ -293,6 +307,9 @@ class Aggregate:
         self.steps += other.steps
         self.sim_time += other.sim_time
         self.violations.extend(other.violations)
+        for item in other.known:
+            if not any(v["sig"] == item[2]["sig"] for _, _, v in self.known):
+                self.known.append(item)
         self.samples.extend(other.samples)
         self.harness_errors.extend(other.harness_errors)
 
@@ -583,6 +600,7 @@ def drive(check_name, tier, verif_seed, budget_s=None, max_runs=None,
           f"budget={budget_s:.0f}s workers={workers} repo={REPO_ROOT}")
     sys.stdout.flush()
     opened, fixed = load_known_findings(check.prop)
+    _OPEN_SIGS.update(sig for sig, _ in opened if sig)
 
     agg = Aggregate()
     # determinism self-test first (cheap, in the main process)
@@ -686,7 +704,8 @@ def drive(check_name, tier, verif_seed, budget_s=None, max_runs=None,
     known_hit = []
     new_violations = []
     seen_sigs = set()
-    for idx, case, v in sorted(agg.violations, key=lambda x: x[0]):
+    for idx, case, v in sorted(agg.known + agg.violations,
+                               key=lambda x: x[0]):
         match = [t for (s, t) in opened if s and s == v["sig"]]
         if match:
             if v["sig"] not in seen_sigs:
